@@ -19,7 +19,7 @@ fn big(mut p: Profile) -> Profile
 
 pub fn tree_engine(prop: &'static str) -> Option<(TreeEngine, String)>
 {
-    let g = Profile::general();
+    let g = Profile::for_prop(prop);
     let (profile, nontrivial, rule): (Profile, &'static [&'static str], &str) = match prop
     {
         "C01" => (g, &["C01:multi_listener_with_decoys"], "a trigger applied while >= 2 registrations match it and >= 1 other live registration must not"),
@@ -63,8 +63,8 @@ pub fn run(prop: &str, tier: Tier, seed: u64, replay: Option<&str>) -> i32
         let spec = CheckSpec{
             prop: p,
             engine: &engine,
-            quick_cases: 30_000,
-            thorough_cases: 1_500_000,
+            quick_cases: 200_000,
+            thorough_cases: 3_000_000,
             rule,
             assumptions: tree_assumptions(),
         };
